@@ -103,3 +103,40 @@ def call_truth(cond):
         if k in ('CallExpr', 'CXXMemberCallExpr'): return s, pol
         return None
     return None
+
+
+def implied_by_call(facts, fn, cond_ast, label, _cache={}):
+    """A condition that is a call of a bool helper (`if (!read_count(length, ec)) return;`): the comparisons the helper itself made on
+    every path on which it returns the value that the caller's branch requires.  Yields (callee, callee CFG, condition, label, edge,
+    {callee parameter name: caller argument variable name}) for each such comparison - the caller's node is guarded by them exactly
+    as if the helper's statements stood in its place."""
+    from . import cfg as C
+    ct = call_truth(cond_ast)
+    if not ct or not isinstance(label, bool): return []
+    call, pol = ct
+    callee = facts.callee(fn, call)
+    if callee is None or callee.get('body') is None or callee.get('dep'): return []
+    want = (label == pol)            # the truth value the helper returned on this branch
+    key = (callee['_unit'], callee['id'])
+    if key not in _cache:
+        _cache[key] = C.CFG(callee['body'])
+    g2 = _cache[key]
+    rets = [n for n in g2.rpo if n.kind == 'return' and isinstance(n.ast, dict) and n.ast.get('val') is not None]
+    if not rets or any(A.const(n.ast['val']) is None for n in rets): return []
+    sel = [n for n in rets if bool(A.const(n.ast['val'])) == want]
+    if not sel: return []
+    common = None
+    per = []
+    for n in sel:
+        gs = [(id(e.src), lab, a, e) for a, lab, e in g2.guards(n) if isinstance(lab, bool) and e.src is not None]
+        per.append(gs)
+        keys = set((k, lab) for k, lab, a, e in gs)
+        common = keys if common is None else (common & keys)
+    names = {}
+    for p, a in zip(callee['params'], call.get('args') or []):
+        rn = A.ref_name(a)
+        if rn: names[p['n']] = rn
+    out = []
+    for k, lab, a, e in per[0]:
+        if (k, lab) in common: out.append((callee, g2, a, lab, e, names))
+    return out
